@@ -20,6 +20,7 @@ def toNats (ws : List String) : List Nat := ws.filterMap String.toNat?
 
 structure DState where
   id : String := "0"
+  cacheAll : Bool := false
   ds : Dataset := Dataset.empty
   trips2 : List TripRec := []
   reqs : List String := []
@@ -43,7 +44,7 @@ def dataLine (st : DState) (ws : List String) : Option DState :=
   | ["stops", n] => some { st with ds := { ds with nStops := n.toNat! } }
   | ["agencies", n] => some { st with ds := { ds with nAgencies := n.toNat! } }
   | ["services", n] => some { st with ds := { ds with nServices := n.toNat! } }
-  | ["cacheall", _] => some st
+  | ["cacheall", v] => some { st with cacheAll := v ≠ "0" }
   | ["foot", a, b, t, d] => some { st with ds := { ds with foot := ds.foot ++ [⟨a.toNat!, b.toNat!, t.toInt!, d.toInt!⟩] } }
   | ["line", a, m] => some { st with ds := { ds with lines := ds.lines ++ [⟨a.toNat!, m.toNat!⟩] } }
   | "path" :: l :: rest =>
@@ -111,26 +112,5 @@ def parseParams (ds : Dataset) (kvs : List String) : Except ParamError Params :=
       if (ds.scenarios.getD i default).services.isEmpty then .error .emptyScenario
       else if st.time < 0 then .error .missingTime
       else .ok { st.p with time := st.time, scenario := i }
-
-def answer (ds : Dataset) (kind : String) (kvs : List String) : String :=
-  match parseParams ds kvs with
-  | .error e => s!"{kind} query_error {paramErrorType e}"
-  | .ok p =>
-    if kind = "route" then renderRouteAnswer ds p
-    else if kind = "summary" then renderSummaryAnswer ds p
-    else renderAccessibilityAnswer ds { p with alternatives := false }
-
-def runBlock (st : DState) : List String :=
-  let rec go : List String → Nat → Dataset → List TripRec → List String → List String
-    | [], _, _, _, out => out
-    | r :: rs, i, ds, t2, out =>
-      match words r with
-      | "update" :: ws =>
-        -- in-memory refresh: `swap` exchanges the two trip sets, every named kind is re-read
-        let (ds', t2') := if ws.contains "swap" then ({ ds with trips := t2 }, ds.trips) else (ds, t2)
-        go rs (i+1) ds' t2' (out ++ [s!"A {st.id} {i} updated"])
-      | kind :: kvs => go rs (i+1) ds t2 (out ++ [s!"A {st.id} {i} {answer ds kind kvs}"])
-      | [] => go rs i ds t2 out
-  go st.reqs 0 st.ds st.trips2 []
 
 end Tr
